@@ -88,6 +88,17 @@ char* __vf_libc_memchr(char* s, uint32_t c, uint64_t n){ for(uint64_t i=0;i<n;i+
 uint32_t __vf_libc_toupper(uint32_t c){ return (c>='a'&&c<='z')? c-32 : c; }
 uint32_t __vf_libc_tolower(uint32_t c){ return (c>='A'&&c<='Z')? c+32 : c; }
 char* __vf_libc_strncpy(char* d, char* s, uint64_t n){ uint64_t i=0; for(;i<n&&s[i];i++) d[i]=s[i]; for(;i<n;i++) d[i]=0; return d; }
+char* __vf_libc_malloc(uint64_t n){ char* p=malloc(n?n:1); __CPROVER_assume(p!=0); return p; }
+void __vf_libc_free(char* p){ free(p); }
+void __vf_libc_abort(void){ __CPROVER_assert(0,"abort() called"); __CPROVER_assume(0); }
+uint32_t __vf_libc_strcmp(char* a, char* b){ uint64_t i=0; for(;;i++){ unsigned char x=a[i], y=b[i]; if(x!=y) return x<y?(uint32_t)-1:1; if(!x) return 0; } }
+uint32_t __vf_libc_strncmp(char* a, char* b, uint64_t n){ for(uint64_t i=0;i<n;i++){ unsigned char x=a[i], y=b[i]; if(x!=y) return x<y?(uint32_t)-1:1; if(!x) return 0; } return 0; }
+char* __vf_libc_strchr(char* s, uint32_t c){ for(uint64_t i=0;;i++){ if(s[i]==(char)c) return s+i; if(!s[i]) return 0; } }
+uint32_t __vf_libc_abs(uint32_t x){ __CPROVER_assert(x!=0x80000000u,"UB: abs(INT_MIN)"); return ((int32_t)x<0)?0u-x:x; }
+uint64_t __vf_libc_labs(uint64_t x){ __CPROVER_assert(x!=0x8000000000000000ull,"UB: labs(LONG_MIN)"); return ((int64_t)x<0)?0ull-x:x; }
+char* __vf_libc_memcpy(char* d, char* s, uint64_t n){ __vf_memcpy(d,s,n); return d; }
+char* __vf_libc_memmove(char* d, char* s, uint64_t n){ __vf_memmove(d,s,n); return d; }
+char* __vf_libc_memset(char* d, uint32_t c, uint64_t n){ __vf_memset(d,(uint8_t)c,n); return d; }
 /* nondeterministic sources: each draw is one assignment "x=<value>" inside the named function, which is what
    the driver extracts from the counterexample trace, in execution order, for native replay */
 uint8_t nondet_uchar(void); uint16_t nondet_ushort(void); uint32_t nondet_uint(void); uint64_t nondet_ulong(void);
